@@ -44,6 +44,12 @@ RULE = ("cases: random policies (T<P, T=0, T=kP, L=1..50) x arrival sequences (b
 TRUSTED_BASE = [
     "model coq/model/RL.v is hand-written; tied to pkg/util/ratelimiter by the per-run correspondence (sampled)",
     "virtual clock: package variable nowFunc replaced by the harness; real time.Sleep/timers not exercised",
+    "filter group: URL-rule matching is modelled (url_match); only the verdict of Go's regexp on the rule's own pattern is an oracle bit; "
+    "net/url's decoding of the request path is an oracle (the model sees URL.Path)",
+    "mqtt group: the limiter and the glue Client.checkPublishLimit are driven in-package (no broker, no sockets); "
+    "DUP/QoS flags of the PUBLISH are inputs the model ignores (every PUBLISH is charged)",
+    "trace checker prop_unit is proved sound and complete (C09_trace_checker_sound, C09_model_passes_checker); "
+    "the filter-history checker flt_prop and the multi-limiter wait checker are trusted as written",
 ]
 ASSUMPTIONS = ["non-decreasing clock (now >= limiter start)", "validated policy: period > 0, limit > 0, timeout >= 0",
                "every public operation holds the limiter's mutex for its whole body (atomic step)"]
